@@ -141,6 +141,7 @@ type BedConfig struct {
 	Logger            *zap.Logger
 	BackendMaxVersion primitive.ProtocolVersion
 	Unlisted          []int // hosts that exist (listen) but are not in the peers table when the proxy starts
+	Tune              func(*fakecass.Config) // last word on the configuration of the bed's own backend (nodes that differ from each other)
 }
 
 type Bed struct {
@@ -188,8 +189,12 @@ func NewBed(cfg BedConfig) (*Bed, error) {
 	if cfg.Cluster != nil {
 		b.Cluster = cfg.Cluster
 	} else {
-		b.Cluster, err = fakecass.New(fakecass.Config{Hosts: cfg.Hosts, Keyspaces: cfg.Keyspaces, DSEVersion: cfg.DSEVersion, DC: "dc1",
-			NeverCompress: cfg.NeverCompress, Lenient: cfg.Lenient, Log: b.Log, MaxVersion: cfg.BackendMaxVersion})
+		fcfg := fakecass.Config{Hosts: cfg.Hosts, Keyspaces: cfg.Keyspaces, DSEVersion: cfg.DSEVersion, DC: "dc1",
+			NeverCompress: cfg.NeverCompress, Lenient: cfg.Lenient, Log: b.Log, MaxVersion: cfg.BackendMaxVersion}
+		if cfg.Tune != nil {
+			cfg.Tune(&fcfg)
+		}
+		b.Cluster, err = fakecass.New(fcfg)
 		if err != nil {
 			return nil, err
 		}
